@@ -33,8 +33,8 @@ Fixpoint has_ext (e : gerr) : bool :=
   match e with EExt _ => true | EWrap i => has_ext i | _ => false end.
 
 Definition code_x (e : gerr) : Z :=
-  if gerr_eqb e e_nomore then E_nomore
-  else if has_ext e then E_injected
+  if has_ext e then E_injected
+  else if gerr_is e e_nomore then E_nomore
   else if gerr_is e e_sync then E_sync
   else if gerr_is e e_skipped then E_skipped
   else E_generic.
@@ -60,14 +60,36 @@ Proof. norm_cases c. Qed.
 Lemma norm_skipped c : (norm c =? E_skipped) = (c =? E_skipped).
 Proof. norm_cases c. Qed.
 
-(* fmt.Errorf("...: %w", e) keeps the code of e, unless e is the "no more packets" sentinel itself *)
-Lemma code_x_wrap e : gerr_eqb e e_nomore = false -> code_x (EWrap e) = code_x e.
+(* fmt.Errorf("...: %w", e) keeps the code of e *)
+Lemma code_x_wrap e : code_x (EWrap e) = code_x e.
+Proof. unfold code_x. cbn [has_ext gerr_is gerr_eqb e_nomore e_sync e_skipped orb]. reflexivity. Qed.
+
+Lemma gerr_eqb_eq a : forall b, gerr_eqb a b = true -> a = b.
 Proof.
-  intros H. unfold code_x. rewrite H. cbn [gerr_eqb e_nomore has_ext gerr_is e_sync e_skipped orb]. reflexivity.
+  induction a as [x|x IH| |x IH]; intros [y|y| |y] H; cbn [gerr_eqb] in H; try discriminate; try reflexivity.
+  - apply String.eqb_eq in H. subst. reflexivity.
+  - f_equal. apply IH. exact H.
+  - f_equal. apply IH. exact H.
 Qed.
 
 Lemma code_x_nomore e : gerr_eqb e e_nomore = true -> code_x e = E_nomore.
-Proof. intros H. unfold code_x. rewrite H. reflexivity. Qed.
+Proof. intros H. apply gerr_eqb_eq in H. subst. reflexivity. Qed.
+
+(* how a (value, error) pair returned by the generated code relates to a result of the model: the same value, or an
+   error with the model's code (exact: moreover it is the ErrNoMorePackets sentinel itself exactly when the model's
+   code is E_nomore, which is what a caller comparing with == relies on) *)
+Definition res_rel {A : Type} (v : option A) (err : option gerr) (r : res A) : Prop :=
+  match err, r with
+  | Some e, Err c => code_x e = norm c
+  | None, Ok a => v = Some a
+  | _, _ => False
+  end.
+Definition res_rel_exact {A : Type} (v : option A) (err : option gerr) (r : res A) : Prop :=
+  match err, r with
+  | Some e, Err c => code_x e = norm c /\ gerr_eqb e e_nomore = (c =? E_nomore)
+  | None, Ok a => v = Some a
+  | _, _ => False
+  end.
 
 (* ---- the world ---- *)
 
@@ -124,14 +146,6 @@ Qed.
 
 (* results of the model as (value, error) pairs of the generated code *)
 Definition go_err (c : Z) : option gerr := Some (err_of c).
-
-(* what a call of the generated code returned, read as a result of the model *)
-Definition res_of {A : Type} (v : option A) (err : option gerr) : res A :=
-  match err, v with
-  | Some e, _ => Err (code_x e)
-  | None, Some a => Ok a
-  | None, None => Err (-1)   (* (nil, nil): no model function returns it *)
-  end.
 
 (* ---- the Demuxer's abstract operations, by the model ---- *)
 
